@@ -84,3 +84,43 @@ Example normalize_uri_examples :
   normalize_base_string_uri "https://a.example/p" (Some "B.example:443") = Some "https://b.example/p" /\
   normalize_base_string_uri "/relative" None = None.
 Proof. vm_compute. repeat split. Qed.
+
+(* the authority of the base string URI: a host without a colon is kept character for character; the port is dropped exactly
+   when it is the scheme's default port (so hosts ending in digits of that port, "10.0.0.3:443", keep their last characters) *)
+Lemma split_first_colon h port :
+  (forall c, In c (list_ascii_of_string h) -> c <> ":"%char) ->
+  split_first ":" (h ++ ":" ++ port) = (h, Some port).
+Proof.
+  induction h as [|d r IH]; intros H; [reflexivity|].
+  change ((String d r ++ ":" ++ port)%string) with (String d (r ++ ":" ++ port)%string).
+  cbn [split_first]. destruct (Ascii.eqb d ":") eqn:E.
+  - apply Ascii.eqb_eq in E. exfalso. apply (H d); [left; reflexivity | exact E].
+  - rewrite IH; [reflexivity|]. intros c Hc. apply H. right. exact Hc.
+Qed.
+
+Theorem base_string_authority_keeps_the_host :
+  forall scheme h port,
+  (forall c, In c (list_ascii_of_string h) -> c <> ":"%char) ->
+  base_netloc scheme (h ++ ":" ++ port) =
+    if (String.eqb scheme "http" && String.eqb port "80") || (String.eqb scheme "https" && String.eqb port "443")
+    then h else (h ++ ":" ++ port)%string.
+Proof. intros scheme h port H. unfold base_netloc. rewrite split_first_colon by exact H. reflexivity. Qed.
+Print Assumptions base_string_authority_keeps_the_host.
+
+Theorem base_string_authority_without_port_is_unchanged :
+  forall scheme h, (forall c, In c (list_ascii_of_string h) -> c <> ":"%char) -> base_netloc scheme h = h.
+Proof.
+  intros scheme h H. unfold base_netloc.
+  assert (E : split_first ":" h = (h, None)).
+  { induction h as [|d r IH]; [reflexivity|].
+    cbn [split_first]. destruct (Ascii.eqb d ":") eqn:E.
+    - apply Ascii.eqb_eq in E. exfalso. apply (H d); [left; reflexivity | exact E].
+    - rewrite IH; [reflexivity|]. intros c Hc. apply H. right. exact Hc. }
+  rewrite E. reflexivity.
+Qed.
+Print Assumptions base_string_authority_without_port_is_unchanged.
+
+Example hosts_ending_in_port_digits :
+  base_netloc "https" "10.0.0.3:443" = "10.0.0.3" /\ base_netloc "https" "api4:443" = "api4" /\ base_netloc "http" "10.0.0.80:80" = "10.0.0.80" /\
+  base_netloc "https" "host:4443" = "host:4443" /\ base_netloc "https" "api443" = "api443".
+Proof. repeat split. Qed.
